@@ -46,6 +46,8 @@ type Prog struct {
 	npkgs int
 
 	constGlobals map[*ssa.Global]ssa.Value
+	constTables  map[*ssa.Global]map[int64]*ssa.Const
+	notTable     map[*ssa.Global]bool
 }
 
 // brokenf reports that the check itself cannot run (exit 2): never a silent pass.
@@ -397,4 +399,105 @@ func (p *Prog) ConstGlobal(g *ssa.Global) ssa.Value {
 		}
 	}
 	return p.constGlobals[g]
+}
+
+// ConstTable: if the package variable g of a repository package is an array that is effectively constant - in the
+// repository it is only indexed and loaded, except for stores of constants to constant indexes in the package
+// initialiser (`var isLower = [256]bool{'a': true, ...}`) - the stored constants by index (absent = zero value).
+func (p *Prog) ConstTable(g *ssa.Global) (map[int64]*ssa.Const, bool) {
+	if p.constTables == nil {
+		p.constTables = map[*ssa.Global]map[int64]*ssa.Const{}
+		p.notTable = map[*ssa.Global]bool{}
+	}
+	if t, ok := p.constTables[g]; ok {
+		return t, true
+	}
+	if p.notTable[g] {
+		return nil, false
+	}
+	fail := func() (map[int64]*ssa.Const, bool) {
+		p.notTable[g] = true
+		return nil, false
+	}
+	pt, ok := g.Type().(*types.Pointer)
+	if !ok || g.Pkg == nil || p.SPkgs[g.Pkg.Pkg.Path()] == nil {
+		return fail()
+	}
+	if _, isArr := pt.Elem().Underlying().(*types.Array); !isArr {
+		return fail()
+	}
+	if o := g.Object(); o != nil && o.Exported() {
+		return fail()
+	}
+	var fns []*ssa.Function
+	fns = append(fns, p.Funcs...)
+	for _, sp := range p.SPkgs {
+		if f := sp.Func("init"); f != nil {
+			fns = append(fns, f)
+		}
+	}
+	tbl := map[int64]*ssa.Const{}
+	seen := map[*ssa.Function]bool{}
+	for _, f := range fns {
+		if seen[f] {
+			continue
+		}
+		seen[f] = true
+		isInit := f.Name() == "init" && f.Synthetic != ""
+		for _, b := range f.Blocks {
+			for _, in := range b.Instrs {
+				uses := false
+				for _, op := range in.Operands(nil) {
+					if *op == ssa.Value(g) {
+						uses = true
+					}
+				}
+				if !uses {
+					continue
+				}
+				switch x := in.(type) {
+				case *ssa.IndexAddr:
+					for _, r := range *x.Referrers() {
+						switch y := r.(type) {
+						case *ssa.UnOp:
+							if y.Op != token.MUL {
+								return fail()
+							}
+						case *ssa.Store:
+							k, isK := x.Index.(*ssa.Const)
+							v, isV := y.Val.(*ssa.Const)
+							if !isInit || y.Addr != ssa.Value(x) || !isK || !isV || k.Value == nil {
+								return fail()
+							}
+							tbl[k.Int64()] = v
+						default:
+							return fail()
+						}
+					}
+				case *ssa.UnOp:
+					if x.Op != token.MUL {
+						return fail()
+					}
+					// the whole array loaded: only to be indexed
+					for _, r := range *x.Referrers() {
+						if _, ok := r.(*ssa.Index); !ok {
+							return fail()
+						}
+					}
+				case *ssa.Store:
+					// whole-array initialisation with the zero value
+					if !isInit || x.Addr != ssa.Value(g) {
+						return fail()
+					}
+					if k, ok := x.Val.(*ssa.Const); !ok || k.Value != nil {
+						return fail()
+					}
+				default:
+					return fail()
+				}
+			}
+		}
+	}
+	p.constTables[g] = tbl
+	return tbl, true
 }
